@@ -134,6 +134,11 @@ async def run_case(part, m, name, fault, k, others, explore=False):
     before = await dump(srv)
     saved = {}
     calls = [0]
+    # what a storage layer really raises differs: a bug (RuntimeError), a full disk or an exhausted quota (OSError with ENOSPC / EDQUOT), a failing device (EIO),
+    # a missing file, a lock that is not obtained in time (TimeoutError) - however the server classifies it, a command answered NO has changed nothing
+    import errno as _errno
+    injected = [RuntimeError('injected storage fault'), OSError(_errno.ENOSPC, 'No space left on device'), OSError(_errno.EDQUOT, 'Disk quota exceeded'),
+                OSError(_errno.EIO, 'Input/output error'), FileNotFoundError(2, 'No such file'), MemoryError(), KeyError(1), TimeoutError()][(k + len(name)) % 8]
     if fault == 'raise':
         def wrap(fname):
             orig = getattr(dm.MailboxData, fname)
@@ -143,7 +148,7 @@ async def run_case(part, m, name, fault, k, others, explore=False):
                 if asyncio.current_task().get_name() == 's0':
                     calls[0] += 1
                     if calls[0] == k + 1:
-                        raise RuntimeError('injected storage fault')
+                        raise injected
                 return await orig(self, *args, **kw)
             setattr(dm.MailboxData, fname, wrapper)
         for fname in ('append', 'copy', 'move', 'delete'):
@@ -307,7 +312,9 @@ async def run_case(part, m, name, fault, k, others, explore=False):
                 part.violation('monitor', f'{name}: APPEND did not complete with OK ({fault}@{k}, status {status}) but messages {present} of {info["appending"]} are in the mailbox '
                                '(a multi-message APPEND is not all-or-nothing)', case, signature=sig)
         if status in ('NO', 'BAD') and after != before and not other_touched and not others:
-            part.violation('monitor', f'{name}: answered {status} but the mailboxes changed: {before} -> {after}', case, signature='refused-changed')
+            part.violation('monitor', f'{name}: answered {status} but the mailboxes changed: {before} -> {after}' + (f' (storage call {k + 1} raised {type(injected).__name__})' if fault == 'raise' else ''),
+                           dict(case, injected=type(injected).__name__ if fault == 'raise' else None),
+                           signature='refused-changed' + (':' + type(injected).__name__ if fault == 'raise' else ''))
         # ---- model
         if model_on and mstate and mstate != 'DISABLED':
             src, dst, pc = mstate.split(' ')
